@@ -120,22 +120,10 @@ func init() {
 			var d map[string]json.RawMessage
 			json.Unmarshal(drv, &d)
 			if why := nonTermination(real); why != "" {
-				if _, ok := d["outOfFuel"]; ok {
-					return core.Fail("hang@alias-self-merge", "alias expansion does not return on this document ("+why+"), as the model predicts")
-				}
-				// the model of resolveReset terminates here: confirm in isolation, then look at what follows resolveReset
+				// the model (resolveReset with its nesting guard, then checkAcyclic) always terminates: confirm in isolation
 				if again := confirmNonTermination("c01reset", args, 20*time.Second); again != nil && nonTermination(again) == "" {
 					real = again
 				} else {
-					var a resetArgs
-					json.Unmarshal(args, &a)
-					for _, n := range a.Nodes {
-						if n.Tag == "!override" {
-							// resolveReset returns an `!override` node without descending into it; an alias to it from inside its
-							// own content is replaced by a direct pointer, and yaml.v3 then decodes a cyclic tree forever
-							return core.Fail("hang@alias-override-cycle", "resolveReset terminates ("+string(drv)+") but the tree it hands to yaml.v3 is cyclic: Decode does not return ("+why+")")
-						}
-					}
 					return core.Fail("hang@reset", "alias expansion does not return on this document ("+why+") although the model answers "+string(drv))
 				}
 			}
@@ -253,14 +241,13 @@ func (a resetArgs) selfRef() bool {
 }
 
 func c01ResetStream(ctx *core.Ctx) {
-	// the recorded witnesses: `<<: *self` (does not return) and a plain self reference (cycle error)
+	// the inputs of the repaired defects: `<<: *self` (did not return) and a plain self reference (cycle error)
 	ctx.Count("model-reset-witness")
 	ctx.Add("c01reset", resetArgs{Nodes: []rNode{{K: "map", Entries: [][]any{{"a", 1}}}, {K: "map", Entries: [][]any{{"k", 2}, {"<<", 3}}}, {K: "scalar"}, {K: "alias", T: 1}}, Root: 0, Anchor: []int{1}})
 	ctx.Add("c01reset", resetArgs{Nodes: []rNode{{K: "map", Entries: [][]any{{"a", 1}}}, {K: "map", Entries: [][]any{{"k", 2}}}, {K: "alias", T: 1}}, Root: 0, Anchor: []int{1}})
 	// a plain self reference five levels down: {a: {b: {c: {d: &x {k: *x}}}}}
 	ctx.Add("c01reset", resetArgs{Nodes: []rNode{{K: "map", Entries: [][]any{{"a", 1}}}, {K: "map", Entries: [][]any{{"b", 2}}}, {K: "map", Entries: [][]any{{"c", 3}}},
 		{K: "map", Entries: [][]any{{"d", 4}}}, {K: "map", Entries: [][]any{{"k", 5}}}, {K: "alias", T: 4}}, Root: 0, Anchor: []int{4}})
-	loops := 0
 	for i := 0; i < ctx.Pick(3000, 80000); i++ {
 		a := genResetDoc(ctx, false)
 		if len(a.Nodes) > 40 {
@@ -269,22 +256,7 @@ func c01ResetStream(ctx *core.Ctx) {
 		if a.Nodes[a.Root].K == "alias" {
 			continue
 		}
-		// documents whose merge key reaches an enclosing anchor may not return; keep only a few of those
 		if a.selfRef() {
-			hasMerge := false
-			for _, n := range a.Nodes {
-				for _, e := range n.Entries {
-					if e[0].(string) == "<<" {
-						hasMerge = true
-					}
-				}
-			}
-			if hasMerge {
-				loops++
-				if loops > ctx.Pick(3, 12) {
-					continue
-				}
-			}
 			ctx.Count("model-reset-selfref")
 		} else {
 			ctx.Count("model-reset-acyclic")
